@@ -822,8 +822,13 @@ func (s *ShapeIndex) maybeApplyUpdates() {
 	// corresponding index updates.
 	if atomic.LoadInt32(&s.status) != fresh {
 		s.mu.Lock()
-		s.applyUpdatesInternal()
-		atomic.StoreInt32(&s.status, fresh)
+		// Another goroutine may have applied the updates while this one was
+		// waiting for the lock; applying them again would rewrite the index
+		// while that goroutine is already reading it.
+		if atomic.LoadInt32(&s.status) != fresh {
+			s.applyUpdatesInternal()
+			atomic.StoreInt32(&s.status, fresh)
+		}
 		s.mu.Unlock()
 	}
 }
